@@ -641,6 +641,10 @@ func (m *interp) callFn(name string, args []mval) (mval, bool, error) {
 	case "noret":
 		m.fnLog = append(m.fnLog, "noret()")
 		return mval{}, false, nil
+	case "eoferr":
+		// a host function that fails with an error wrapping io.EOF: an error like any other
+		m.sawBoom = true
+		return mval{}, false, evalErrf("the host function fails with io.EOF")
 	case "boom":
 		// a host function that panics: the panic is the host's own and travels up through Next
 		m.sawBoom = true
